@@ -30,7 +30,7 @@ ASSUMPTIONS = ["files without any primary record are outside the domain (the ave
 
 
 def plan(tier):
-    return {"cases": 1000 if tier == "quick" else 20000, "shards": 16,
+    return {"cases": 1000 if tier == "quick" else 60000, "shards": 16,
             "shard_budget_s": 300 if tier == "quick" else 3300}
 
 
@@ -187,7 +187,14 @@ def run_case(ctx, rng, index, casedir):
         gaf = os.path.join(casedir, f"in{k}.gaf" + ("" if mode == "plain" else ".gz"))
         ggaf.write_gaf(gaf, [lines[i] for i in order], mode=mode, rng=rng, layout=rng.choice(["standard", "tiny"]))
         out = os.path.join(casedir, f"rep{k}.txt")
-        o = run_cli(["stat", gaf, "-o", out] + (["--cigar"] if cigar else []))
+        if rng.random() < 0.25:  # default output: stdout
+            o = run_cli(["stat", gaf] + (["--cigar"] if cigar else []))
+            if o.ok:
+                with open(out, "w") as f:
+                    f.write(o.stdout)
+            M.hit("stdout_reports")
+        else:
+            o = run_cli(["stat", gaf, "-o", out] + (["--cigar"] if cigar else []))
         M.hit("reports_judged")
         if k:
             M.hit("permuted_reports")
